@@ -223,8 +223,9 @@ void Ctx::c18() {
         }
         if (!ok) fail("C18", "auth_data_differs", "authenticator step " + std::to_string(l.step) + " received data '" + l.s1 + "' that no AUTH/CONNACK of the broker carried");
     }
-    // a well-formed packet is never treated as malformed
-    for (auto& r : B.recv) {
+    // a well-formed packet is never treated as malformed (not judged when the broker repeats acknowledgements: a repeated
+    // SUBACK/UNSUBACK can meet a new request with the same identifier and another topic count)
+    if (!relaxed_witness()) for (auto& r : B.recv) {
         if (!r.decode_err.empty() || r.pkt.type != DISCONNECT) continue;
         if (r.pkt.rc != 0x81 && r.pkt.rc != 0x82) continue;
         if (conn_hostile(r.conn)) continue;
